@@ -160,7 +160,7 @@ func (m *MatchWinbox) Match(cx *layer4.Connection) (bool, error) {
 // Provision prepares m's internal structures.
 func (m *MatchWinbox) Provision(_ caddy.Context) (err error) {
 	repl := caddy.NewReplacer()
-	m.usernameRegexp, err = regexp.Compile(repl.ReplaceAll(m.UsernameRegexp, ""))
+	m.usernameRegexp, err = regexp.Compile(repl.ReplaceKnown(m.UsernameRegexp, ""))
 	if err != nil {
 		return err
 	}
